@@ -115,6 +115,34 @@ fn run_t<T: Pixel>(conv: Conv, meta: &Meta) -> Result<Vec<u32>, CE> {
     })
 }
 
+fn run_empty_t<T: Pixel>(conv: Conv, meta: &Meta, w: usize, h: usize) -> Result<usize, CE> {
+    // zero-pixel images (0x0, 0xN, Nx0): support must not depend on the number of pixels
+    let (sx, sy) = (meta.ss.0 as usize, meta.ss.1 as usize);
+    let yuv = || -> Yuv<T> {
+        let f = Frame { planes: [Plane::new(w, h, 0, 0, 0, 0), Plane::new(w >> sx, h >> sy, sx, sy, 0, 0), Plane::new(w >> sx, h >> sy, sx, sy, 0, 0)] };
+        Yuv::new(f, meta.cfg()).expect("empty frame")
+    };
+    let rgb = || Rgb::new(vec![], w, h, meta.t, meta.p).unwrap();
+    let lin = || LinearRgb::new(vec![], w, h).unwrap();
+    let xyb = || Xyb::new(vec![], w, h).unwrap();
+    Ok(match conv {
+        Conv::YuvToRgb => Rgb::try_from(&yuv())?.data().len(),
+        Conv::RgbToYuv => Yuv::<T>::try_from((&rgb(), meta.cfg()))?.width(),
+        Conv::RgbToLin => LinearRgb::try_from(rgb())?.data().len(),
+        Conv::LinToRgb => Rgb::try_from((lin(), meta.t, meta.p))?.data().len(),
+        Conv::YuvToLin => LinearRgb::try_from(&yuv())?.data().len(),
+        Conv::LinToYuv => Yuv::<T>::try_from((lin(), meta.cfg()))?.width(),
+        Conv::YuvToXyb => Xyb::try_from(&yuv())?.data().len(),
+        Conv::XybToYuv => Yuv::<T>::try_from((xyb(), meta.cfg()))?.width(),
+        Conv::RgbToXyb => Xyb::try_from(rgb())?.data().len(),
+        Conv::XybToRgb => Rgb::try_from((xyb(), meta.t, meta.p))?.data().len(),
+    })
+}
+/// Ok/Err class of a conversion of a zero-pixel image (outer Err = panic message).
+pub fn run_empty(conv: Conv, meta: &Meta, w: usize, h: usize) -> Result<Result<usize, CE>, String> {
+    guarded(|| if meta.wide { run_empty_t::<u16>(conv, meta, w, h) } else { run_empty_t::<u8>(conv, meta, w, h) })
+}
+
 /// Outer Err = panic message.
 pub fn run_conv(conv: Conv, meta: &Meta) -> Result<Result<Vec<u32>, CE>, String> {
     guarded(|| if meta.wide { run_t::<u16>(conv, meta) } else { run_t::<u8>(conv, meta) })
@@ -183,6 +211,39 @@ fn check_meta(acc: &mut Acc, idx: u64, meta: &Meta) {
                         return;
                     }
                 }
+            }
+            // the same conversion of zero-pixel images must fall into the same Ok/Err class
+            if meta.ss == (0, 0) {
+                for (w, h) in [(0usize, 0usize), (0, 3), (2, 0)] {
+                    // A zero-width plane with rows cannot be iterated by v_frame (its PlaneIter
+                    // underflows): `Yuv::new` panics on a 0xN u16 frame. Widths of 0 are outside every
+                    // property's stated domain, so this shape is used for the float-only conversions.
+                    let touches_yuv = !matches!(conv, Conv::RgbToLin | Conv::LinToRgb | Conv::RgbToXyb | Conv::XybToRgb);
+                    if touches_yuv && w == 0 && h > 0 {
+                        continue;
+                    }
+                    acc.transitions += 1;
+                    let class = |x: &Result<Result<usize, CE>, String>| match x {
+                        Ok(Ok(_)) => "Ok".to_string(),
+                        Ok(Err(e)) => format!("Err({e:?})"),
+                        Err(p) => format!("panic {}", panic_site(p)),
+                    };
+                    let e = run_empty(conv, meta, w, h);
+                    let want = match &r {
+                        Ok(_) => "Ok".to_string(),
+                        Err(e) => format!("Err({e:?})"),
+                    };
+                    if class(&e) != want {
+                        acc.violation(
+                            idx,
+                            format!("support-depends-on-pixel-count conv={conv:?}"),
+                            format!("{:?}: a 2x2 image gives {want}, a {w}x{h} image gives {}", meta, class(&e)),
+                            json!({"kind":"c14","conv":format!("{conv:?}"),"meta":meta.json()}),
+                        );
+                        return;
+                    }
+                }
+                acc.bucket("zero-pixel images fall into the same Ok/Err class", 1);
             }
             results.push(r);
         }
@@ -278,7 +339,7 @@ pub fn run(_tier: Tier) -> Report {
     });
     rep.acc.merge(acc);
     rep.exhaustive = true;
-    rep.bound = format!("all 14 x 13 x 18 = 3276 fully specified (matrix, primaries, transfer) triples x {{u8/8 bit, u16/10 bit}} x {{limited, full}} x {{4:4:4, subsampled}} = {} metadata states x 10 conversions (5 forward/reverse pairs) on a 2x2 image, plus one metamorphic re-run per error; for each standard matrix all 13 x 18 label pairs for YUV<->RGB", metas.len());
+    rep.bound = format!("all 14 x 13 x 18 = 3276 fully specified (matrix, primaries, transfer) triples x {{u8/8 bit, u16/10 bit}} x {{limited, full}} x {{4:4:4, subsampled}} = {} metadata states x 10 conversions (5 forward/reverse pairs) on a 2x2 image (and, for 4:4:4, on 0x0, 0x3 and 2x0 images, which must fall into the same Ok/Err class), plus one metamorphic re-run per error; for each standard matrix all 13 x 18 label pairs for YUV<->RGB", metas.len());
     rep.rule = "each conversion runs inside catch_unwind: Ok or an Unsupported* error whose named field is offending (replacing only that field by BT709/BT1886 removes that error); never Unspecified*; forward Ok <=> reverse Ok; YUV<->RGB and (with supported primaries) gamma<->linear return the same error; supported sets always succeed; YUV<->RGB data bit-identical across labels".into();
     rep.assumptions = vec!["'names an offending field' is decided metamorphically (DESIGN 2.3)".into()];
     rep.guard("all 3276 x 4 x 2 metadata states", metas.len() == 3276 * 8);
@@ -287,6 +348,7 @@ pub fn run(_tier: Tier) -> Report {
     rep.guard_bucket("Err(UnsupportedColorPrimaries)");
     rep.guard_bucket("Err(UnsupportedTransferCharacteristic)");
     rep.guard_bucket("single-stage pair: same error both ways");
+    rep.guard_bucket("zero-pixel images fall into the same Ok/Err class");
     rep.guard_bucket("standard matrix: YUV<->RGB identical across label pairs");
     rep
 }
